@@ -842,8 +842,11 @@ Definition example_ops : list op :=
 Example example_ops_defined : ops_defined empty example_ops.
 Proof. vm_compute. intuition discriminate. Qed.
 
+Definition example_arr : list elem :=
+  [(6%N, 0%Z); (2%N, 3%Z); (3%N, 5%Z); (1%N, 5%Z); (5%N, 3%Z)].
+
 Example example_state :
-  arr (fst (run empty example_ops)) = [(6, 0); (2, 3); (1, 5); (3, 5); (5, 3)]%Z /\
+  arr (fst (run empty example_ops)) = example_arr /\
   snd (run empty example_ops) =
     [RUnit; RUnit; RUnit; RUnit; RUnit; RUnit; RUnit; RElem (4%N, 1%Z)].
 Proof. vm_compute. split; reflexivity. Qed.
@@ -853,7 +856,7 @@ Proof. apply run_empty_inv, ops_defined_ok, example_ops_defined. Qed.
 
 (* the same fact for the literal heap value, without going through [run] *)
 Example example_inv_literal :
-  inv {| arr := [(6, 0); (2, 3); (1, 5); (3, 5); (5, 3)]%Z;
+  inv {| arr := example_arr;
          idx := idx (fst (run empty example_ops)) |}.
 Proof.
   pose proof example_inv as H. destruct example_state as [Ea _].
